@@ -533,13 +533,39 @@ def linear_cmp(atom, pol: bool = True, integers: bool = True):
     return {a: c for a, c in coeffs.items() if c != 0}, const, op
 
 
-def value_alts(t) -> set:
+def value_alts(t, deep: bool = False) -> set:
     """Normalised alternatives of a value, whatever the spelling of the choice (if/else
-    assignment, conditional expression, early return)."""
+    assignment, conditional expression, early return).  ``deep``: choices nested inside
+    arithmetic are distributed outwards (`phi{a, b} / s` -> {a / s, b / s}), bounded."""
     from .pattern import norm
     from .terms import alts, ifexp_to_phi
 
-    return {norm(b) for b in alts(ifexp_to_phi(t))}
+    t = ifexp_to_phi(t)
+    if not deep:
+        return {norm(b) for b in alts(t)}
+    return {norm(b) for b in _distribute(t, 0)}
+
+
+def _distribute(t, depth: int) -> list:
+    """Alternatives of a term with the merges nested in binop / unary / aug operands pulled out."""
+    if depth > 6 or not isinstance(t, tuple) or not t:
+        return [t]
+    k = t[0]
+    if k == "phi":
+        out = []
+        for a in t[1]:
+            for x in _distribute(a, depth + 1):
+                if x not in out:
+                    out.append(x)
+        return out[:64]
+    if k in ("binop", "aug") and len(t) == 4:
+        ls, rs = _distribute(t[2], depth + 1), _distribute(t[3], depth + 1)
+        if len(ls) * len(rs) > 64:
+            return [t]
+        return [(k, t[1], a, b) for a in ls for b in rs]
+    if k == "unary":
+        return [(k, t[1], a) for a in _distribute(t[2], depth + 1)]
+    return [t]
 
 
 def tuple_components(t, n: int):
